@@ -47,16 +47,16 @@ def py_walk(cwd_parts, arg):
     return pos
 
 
-async def _session(loop, users, bases, tree, plan, first_login, payload):
+async def _session(loop, users, bases, tree, plan, first_login, payload, backend="memory"):
     spy = spyio.Spy()
-    wd = W.World(loop, users, spy=spy)
+    wd = W.World(loop, users, spy=spy, backend=backend)
     await wd.start()
     recs = []
     try:
         wd.set_tree(tree)
         for u, b in zip(wd.users, bases):
             if b is not None:
-                u.base_path = pathlib.Path(b)
+                u.base_path = pathlib.Path(b) if backend == "memory" else wd.base_path / b
         raw = await wd.raw_client()
         for line in first_login:
             await W.run_line(wd, raw, line.encode())
@@ -206,11 +206,12 @@ async def _session(loop, users, bases, tree, plan, first_login, payload):
 
 
 def run_plan(args):
-    """args = (users, bases, tree, plan, first_login[, payload]); returns the records or a HARNESS-ERROR string"""
+    """args = (users, bases, tree, plan, first_login[, payload[, backend]]); returns the records or a HARNESS-ERROR string"""
     users, bases, tree, plan, first_login = args[:5]
     payload = args[5] if len(args) > 5 else PAYLOAD
+    backend = args[6] if len(args) > 6 else "memory"
     try:
-        return simnet.run(_session, users, bases, tree, plan, first_login, payload)
+        return simnet.run(_session, users, bases, tree, plan, first_login, payload, backend)
     except BaseException as e:  # noqa
         return "HARNESS-ERROR %s: %s" % (type(e).__name__, e)
 
